@@ -10,7 +10,7 @@ or given commands.  Every reference to a destructed object reads as 0.
 All theorems are about the executable model `NV.C08.exec` / `runCmds` (NV/C08/Model.lean) for ALL hook oracles
 `sc : Scripts`, ALL fuels and ALL command lists.
 -/
-import NV.C08.Lemmas4
+import NV.C08.Safe2
 
 namespace NV.C08
 
@@ -91,9 +91,10 @@ theorem destructed_never_visible {c : Core} (h : WorldInv c) {i : Nat} (hd : (c.
 /-- **destructed_never_called.**  apply() on a destructed object (create / init / move_or_destruct hooks, and every
     hook call of the fan-out and of the move_or_destruct loop) does nothing at all. -/
 theorem destructed_never_called (sc : Scripts) (f : Nat) (x : Nat) (k : Hook) (arg : Option Nat) (w : World)
-    (hd : (w.c.objs x).destructed = true) (hf : (w.c.objs x).freed = false) :
+    (hx : x < w.c.n) (hd : (w.c.objs x).destructed = true) (hf : (w.c.objs x).freed = false) :
     (exec sc (f + 1) (.hook x k arg) w).w = w ∧ (exec sc (f + 1) (.hook x k arg) w).out = .ok := by
-  simp [exec, hd, hf]
+  have : ¬ (w.c.n ≤ x) := by omega
+  simp [exec, hd, hf, this]
 
 /-- **destructed_never_moved_into.**  move_object into a destructed object, or of a destructed object, never succeeds
     and changes nothing in the structures. -/
@@ -188,6 +189,62 @@ theorem no_dangling {c : Core} (h : WorldInv c) :
       | true => have := (h.links.deadL y hd).2; rw [this] at hm; simp at hm
     exact ⟨live_nf y hyd, hyd⟩
 
+/-- **task_no_crash.**  A task whose pointers are valid (`TaskWf`: allocated and not released; for the fan-out the moved
+    object is in the destination; for the unlink loop of destruct_object the object is still live) never reaches the
+    `crash` outcome - no NULL / wild / dangling dereference in load, clone, move_object, its init() fan-out (the saved
+    `next_ob` cursor included), destruct_object, its move_or_destruct loop, the unlink block (`remove_object_hash` only
+    ever runs on a live object), add_action, command() - for every hook oracle and every fuel.  It also keeps
+    `command_giver` valid, returns valid objects and keeps the ghost flag `initBad` false. -/
+theorem task_no_crash (sc : Scripts) (f : Nat) (t : Task) (w : World) (hI : WorldInv w.c) (ht : TaskWf w.c t)
+    (hwf : WorldWf w) (hg : w.initBad = false) : (exec sc f t w).out ≠ .crash :=
+  (exec_good sc f t w hI ht hwf hg).nocrash
+
+/-- **no_crash.**  Over all histories: whatever top-level commands ran before, the next top-level command does not
+    reach the `crash` outcome (`remove_destructed_objects` in between included: it releases structures that no registry
+    points to any more, `no_dangling`). -/
+theorem no_crash (sc : Scripts) (cmds : List Cmd) (cmd : Cmd) :
+    topOut sc (runCmds sc World.init cmds) cmd ≠ .crash :=
+  (stepCmd_ok sc cmd (runCmds_ok sc cmds World.init init_ok)).2
+
+/-- **init_only_adjacent** (finding C08-F2, repaired by the second `fix:` commit).  `initBad` is a ghost flag of the
+    model, set whenever init() is applied to `x` with this_player() = `y` while neither is the environment of the other
+    nor do they share an environment.  It is never set: in every history init() is only exchanged between adjacent
+    objects (the two added re-checks of the cursor object are what the proof uses). -/
+theorem init_only_adjacent (sc : Scripts) (cmds : List Cmd) : (runCmds sc World.init cmds).initBad = false :=
+  (runCmds_ok sc cmds World.init init_ok).ghost
+
+/-- `command_giver` always points to an allocated, not released object between top-level commands -/
+theorem command_giver_valid (sc : Scripts) (cmds : List Cmd) (g : Nat)
+    (h : (runCmds sc World.init cmds).cg = some g) : NF (runCmds sc World.init cmds).c g :=
+  (runCmds_ok sc cmds World.init init_ok).wf g h
+
+/-- **command_target_live.**  user_parser only ever calls the action of a live object ("a destructed object is never
+    given commands"; `destructed_never_called` covers the apply itself). -/
+theorem command_target_live (c : Core) (a : Nat) (verb : String) (t : String × Nat)
+    (h : (c.objs a).sent.find? (fun t => decide (t.2 < c.n) && !(c.objs t.2).destructed && t.1 == verb) = some t) :
+    t.2 < c.n ∧ (c.objs t.2).destructed = false := by
+  have := List.find?_some h
+  simp at this
+  exact this.1
+
+/-- **destructed_drops_sentences.**  After the unlink block the destructed object holds no sentence, and the
+    command-enabled objects around it (its environment and everything in it) hold no sentence defined by it. -/
+theorem destructed_drops_sentences {c : Core} (h : WorldInv c) {ob : Nat} (ho : ob < c.n)
+    (hd : (c.objs ob).destructed = false) :
+    ((finishDestruct (unsentDestruct c ob) ob).objs ob).sent = [] ∧
+    (∀ s u, (c.objs ob).super = some s → (u = s ∨ u ∈ (c.objs s).contains) → (c.objs u).ec = true →
+      ∀ t ∈ ((unsentDestruct c ob).objs u).sent, t.2 ≠ ob) := by
+  constructor
+  · have hso := unsentDestruct_sentOnly c ob
+    have hu := sentOnly_inv hso h
+    have hpr := sentOnly_proj hso
+    rw [finishDestruct_eq hu.names (by rw [hpr.1]; exact ho) (by rw [(sentOnly_obj hso ob).1]; exact hd)]
+    simp [destroyed, deadObj]
+  · intro s u hs hu hec t ht
+    simp only [unsentDestruct, hs, mapSent] at ht
+    simp only [hu, hec, and_self, if_true, rmSent, List.mem_filter] at ht
+    simpa using ht.2
+
 /-! ## non-vacuity: the hypotheses are met by non-trivial states -/
 
 theorem init_eq : Core.init =
@@ -241,12 +298,19 @@ example : WorldInv (relink Core.init 0 1) ∧ 0 ∈ ((relink Core.init 0 1).objs
       | step hb _ => simp [supF, hs1] at hb
   · simp [relink, setObj]
 
+/-- the hypotheses of `task_no_crash` are met, e.g. by destruct(master) in the initial state -/
+example : WorldInv World.init.c ∧ TaskWf World.init.c (.destruct 1) ∧ WorldWf World.init ∧ World.init.initBad = false := by
+  refine ⟨init_inv, ?_, init_ok.wf, rfl⟩
+  show NF Core.init 1
+  refine live_nf init_inv ?_ ?_ <;> (rw [init_eq]; simp [allocCore, Core.empty])
+
 /-- `world_inv_preserved` / `reachable_inv` are about arbitrary scripts: instantiate with a hook oracle in which every
     create hook clones and every init hook destructs the moved object -/
 example (cmds : List Cmd) :
     WorldInv (runCmds (fun i k _ => match k with
       | .create => [.cl (.bp 0)]
       | .init => [.de i]
-      | .mod => [.mvarg]) World.init cmds).c := reachable_inv _ cmds
+      | .mod => [.mvarg]
+      | .act => [.de i]) World.init cmds).c := reachable_inv _ cmds
 
 end NV.C08
